@@ -126,6 +126,29 @@ def attr_source_reparse(s, how):
     return len(classes) == 1 and _source_ok(classes[0], s) and accepts(el, {s: 1}) and not accepts(el, {})
 
 
+def attr_usable(s, typed, overlap, x):
+    """the mapped name is USABLE: a value supplied under the JSON name is read back under the Python name (attribute of a
+    model instance / key of an untyped result), also when a patternProperties regex matches the JSON name as well"""
+    from vf.common import parse_s, verdict
+
+    S = {"properties": {s: {"type": "integer"}, "plain": {"type": "integer"}}}
+    if typed:
+        S.update({"type": "object", "title": "T"})
+    if overlap:
+        S["patternProperties"] = {"": {"maximum": 10 ** 6}}
+    el = parse_s(S)
+    names = [n for n, p in el.properties.items() if p.source == s]
+    if len(names) != 1:
+        return False
+    name = names[0]
+    ok, r = verdict(el, {s: x, "plain": 0})
+    if not ok:
+        return x > 10 ** 6 and overlap
+    got = getattr(r, name) if typed else r[name]
+    keys = set(r._dict) if typed else set(r)
+    return got == x and keys == {name, "plain"}
+
+
 def _source_ok(cls, s):
     props = cls.properties
     return len(props) == 1 and list(props.values())[0].source == s
@@ -258,6 +281,9 @@ def harnesses(ctx) -> List[H]:
                  covers="names that occur only under required: JSON name recorded, value under that name accepted"))
     hs.append(mk("c12_attr_source_required_only_pool", "i: int", ["0 <= i < 8"], "pool = ('my-prop', 'class', '$ref', '1st', 'two words', '__init__', 'a.b', 'default')\nreturn attr_source_required_only(pool[concretize_int(i, 0, 7)]) and attr_source(pool[concretize_int(i, 0, 7)])", timeout=200, group="attr",
                  covers="typical renamed names, declared and required-only"))
+    hs.append(mk("c12_attr_usable_pool", "i: int, typed: bool, overlap: bool, x: int", ["0 <= i < 10"],
+                 "pool = ('my-prop', 'class', '$ref', '1st', 'two words', '__init__', 'a.b', 'default', '_dict', 'x')\nreturn attr_usable(pool[concretize_int(i, 0, 9)], typed, overlap, x)", timeout=300, group="attr",
+                 covers="renamed properties are readable under the mapped name after validation, with and without a patternProperties regex that also matches the JSON name; typed and untyped"))
     hs.append(mk("c12_attr_source_reparse_pool", "i: int, how: int", ["0 <= i < 8", "0 <= how < 4"],
                  "pool = ('my-prop', 'class', '$ref', '1st', 'two words', '__init__', 'a.b', 'plain')\nreturn attr_source_reparse(pool[concretize_int(i, 0, 7)], concretize_int(how, 0, 3))", timeout=300, group="attr",
                  covers="renamed names on objects whose properties are re-parsed (type list, anyOf / not sibling, one sub-schema dict used three times)"))
